@@ -300,6 +300,7 @@ class Stream:
     def __init__(self, ctx, name):
         self.ctx, self.name = ctx, name
         self.reqs, self.exp, self.meta = [], [], []
+        self.render = None        # optional: driver answer -> rendering comparable with the real side
 
     def add(self, req, expected, meta, nontrivial=True):
         self.reqs.append(req)
@@ -318,6 +319,8 @@ class Stream:
             return bad
         for req, e, g, meta in zip(self.reqs, self.exp, got, self.meta):
             g = norm(g)
+            if self.render is not None:
+                g = norm(self.render(g))
             if g.startswith('bad'):
                 ctx.dist(f'{self.name}:rejected-by-driver')
             if e != g:
@@ -400,11 +403,15 @@ def correspond(ctx):
     format_and_read(ctx, rng, raws, cases, s_fmt, s_read, programs)
     cgr_tokens(ctx, rng, s_tok, programs)
     hash_stream(ctx, s_hash, programs)
+    s_rad, s_map = Stream(ctx, 'readrad'), Stream(ctx, 'mapfix')
+    s_rad.render = readrad_model
+    radicals_and_mapping(ctx, rng, cases, s_rad, s_map, programs, _state.get('written', []))
     renumbering(ctx, rng, cases)
     mirror_states(ctx, rng)
     mutator_histories(ctx, rng, raws, programs)
     disagreements = []
-    for s, primary in ((s_comp, True), (s_rxn, True), (s_fmt, True), (s_read, True), (s_tok, True), (s_exact, False), (s_hash, False)):
+    for s, primary in ((s_comp, True), (s_rxn, True), (s_fmt, True), (s_read, True), (s_tok, True), (s_rad, True), (s_map, True),
+                       (s_exact, False), (s_hash, False)):
         bad = s.run()
         if bad and primary:
             ctx.broke('correspondence', s.name, json.dumps([{'request': b[0][:3000], 'real': b[1][:1500], 'model': b[2][:1500]}
@@ -526,9 +533,9 @@ def read_model(line):
     return repr([sorted(str_skeleton(t) for t in role) for role in roles])
 
 
-def gen_read_text(rng):
+def gen_read_text(rng, frs=None):
     """reaction text with a (possibly malformed) CXSMILES fragment block; fragments have distinct heavy-atom formulas"""
-    frs = rng.sample(FRAGS, len(FRAGS))
+    frs = rng.sample(FRAGS, len(FRAGS)) if frs is None else frs
     counts = [rng.choice((0, 1, 1, 2, 2, 3, 4)) for _ in range(3)]
     roles, k = [], 0
     for c in counts:
@@ -592,6 +599,7 @@ def gen_read_text(rng):
 def format_and_read(ctx, rng, raws, cases, s_fmt, s_read, programs):
     from chython import ReactionContainer, smiles
     n_fmt = 250 if ctx.quick else 2500
+    _state['written'] = []
     small = [x for x in raws if len(x.atoms) <= 14]
     assumption_breaks = 0
     for i in range(n_fmt):
@@ -626,6 +634,7 @@ def format_and_read(ctx, rng, raws, cases, s_fmt, s_read, programs):
         # what the writer wrote is read by the model of the reader as well
         text = format(rx)
         s_read.add('read ' + cps(text), read_real(text), {'text': text, 'flavour': 'written'})
+        _state.setdefault('written', []).append(text)
         if i < 2:
             ctx.sample({'stream': 'fmt/read', 'text': text})
     if assumption_breaks:
@@ -657,6 +666,416 @@ def format_and_read(ctx, rng, raws, cases, s_fmt, s_read, programs):
         ctx_.cov['disagreements_checked'] += len(bad)
         return bad
     s_read.run = run
+
+
+# ------------------------------------------------------------------------------------------------
+# reading: CXSMILES radical block (`^1:`) and atom-to-atom mapping repair (postprocess_parsed_reaction)
+# ------------------------------------------------------------------------------------------------
+
+MAPPED_FRAGS = ['[CH4:1]', '[CH3:2][OH:3]', '[Na+:1]', '[CH3:1][CH3:1]', '[OH2:5]', '[CH3:7]C', '[NH3:2]', '[CH3:4][CH2:5][OH:6]',
+                '[CH3:3]O', '[Cl-:9]', '[CH2:2]=[CH2:1]', '[CH3:6][NH2:6]', '[OH2:12]', '[CH4:0]', '[K+:3]']
+
+
+def _smiles_module():
+    import sys
+    import chython  # noqa: F401  (the package attribute of the same name is the function, not the module)
+    return sys.modules['chython.files.daylight.smiles']
+
+
+_atomcount = {}
+
+
+def piece_atoms(x):
+    """element symbols of the atoms the real molecule parser yields for one molecule string (None: not parsable)"""
+    if x not in _atomcount:
+        from chython.files.daylight.parser import parser
+        from chython.files.daylight.tokenize import smiles_tokenize
+        try:
+            _atomcount[x] = tuple(a['element'] for a in parser(smiles_tokenize(x), False)['atoms'])
+        except Exception:
+            _atomcount[x] = None
+    return _atomcount[x]
+
+
+def piece_table(text):
+    """(piece, atom count) for every non-empty `.`-piece of the first token; None if a piece is not parsable"""
+    toks = text.split()
+    pieces = sorted({x for role in (toks[0] if toks else '').split('>') for x in role.split('.') if x})
+    tbl = []
+    for x in pieces:
+        a = piece_atoms(x)
+        if a is None:
+            return None
+        tbl.append((x, len(a)))
+    return tbl
+
+
+def read_real_hooked(text, **kw):
+    """smiles(text) on the real code with an observation point at the call of postprocess_parsed_reaction:
+    -> (outcome, parsed record before mapping repair, mapping stage (request data, result))"""
+    from chython import ReactionContainer
+    S = _smiles_module()
+    cap = {}
+    orig = S.postprocess_parsed_reaction
+
+    def hook(data, **k):
+        roles = ('reactants', 'reagents', 'products')
+        cap['rec'] = [[([a['element'] for a in m['atoms']], len(m['atoms']),
+                        [i for i, a in enumerate(m['atoms']) if a.get('is_radical')]) for m in data[r]] for r in roles]
+        cap['maps_in'] = {r: [[a.get('parsed_mapping') or 0 for a in m['atoms']] for m in data[r]] for r in roles}
+        cap['kw'] = dict(k)
+        try:
+            res = orig(data, **k)
+        except Exception as e:
+            cap['maps_out'] = 'err ' + type(e).__name__
+            raise
+        cap['maps_out'] = {r: [list(m['mapping']) for m in data[r]] for r in roles}
+        return res
+    S.postprocess_parsed_reaction = hook
+    try:
+        r = S.smiles(text, **kw)
+    except Exception as e:
+        return 'err ' + type(e).__name__, cap
+    finally:
+        S.postprocess_parsed_reaction = orig
+    if not isinstance(r, ReactionContainer):
+        return 'mol', cap
+    cap['result'] = r
+    return repr(cap['rec']), cap
+
+
+def _take_strs(xs, i):
+    k = int(xs[i])
+    i += 1
+    out = []
+    for _ in range(k):
+        n = int(xs[i])
+        out.append(''.join(chr(int(c)) for c in xs[i + 1:i + 1 + n]))
+        i += 1 + n
+    return out, i
+
+
+def _take_flags(xs, i):
+    k = int(xs[i])
+    i += 1
+    out = []
+    for _ in range(k):
+        n = int(xs[i])
+        i += 1
+        idx = []
+        while xs[i] != ';':
+            idx.append(int(xs[i]))
+            i += 1
+        i += 1
+        out.append((n, idx))
+    return out, i
+
+
+def readrad_model(line):
+    """driver answer of `readrad` -> the rendering of read_real_hooked (molecule strings re-parsed by the real parser)"""
+    if not line.startswith('ok R'):
+        return line
+    xs = line.split()
+    i, strs, flags = 1, [], []
+    for tag in ('R', 'A', 'P'):
+        assert xs[i] == tag, line
+        role, i = _take_strs(xs, i + 1)
+        strs.append(role)
+    for tag in ('FR', 'FA', 'FP'):
+        assert xs[i] == tag, line
+        role, i = _take_flags(xs, i + 1)
+        flags.append(role)
+    out = []
+    for ss, ff in zip(strs, flags):
+        if len(ss) != len(ff):
+            return 'model: %d molecules but %d flag lists' % (len(ss), len(ff))
+        out.append([(list(piece_atoms(t) or ('?',)), n, idx) for t, (n, idx) in zip(ss, ff)])
+    return repr(out)
+
+
+def lists_line(ls):
+    return '%d %s' % (len(ls), ' '.join('%d %s' % (len(m), ' '.join(map(str, m))) for m in ls))
+
+
+def mapfix_request(remap, ignore, R, P, A):
+    return norm('mapfix %d %d %d %d %d %s %s %s' % (int(remap), int(ignore), len(R), len(P), len(A),
+                                                    ' '.join('%d %s' % (len(m), ' '.join(map(str, m))) for m in R),
+                                                    ' '.join('%d %s' % (len(m), ' '.join(map(str, m))) for m in P),
+                                                    ' '.join('%d %s' % (len(m), ' '.join(map(str, m))) for m in A)))
+
+
+def mapfix_line(out):
+    if isinstance(out, str):
+        return out
+    return 'ok R %s P %s A %s' % (lists_line(out['reactants']), lists_line(out['products']), lists_line(out['reagents']))
+
+
+def mapfix_real(remap, ignore, R, P, A, rng=None):
+    """postprocess_parsed_reaction on plain parsed-record data"""
+    from chython.files._mapping import postprocess_parsed_reaction
+
+    def atom(m):
+        if m:
+            return {'parsed_mapping': m}
+        k = rng.randrange(3) if rng is not None else 0
+        return ({'parsed_mapping': None}, {'parsed_mapping': 0}, {})[k]
+    data = {k: [{'atoms': [atom(m) for m in mol], 'log': []} for mol in role]
+            for k, role in (('reactants', R), ('products', P), ('reagents', A))}
+    try:
+        postprocess_parsed_reaction(data, remap=remap, ignore=ignore)
+    except Exception as e:
+        return 'err ' + type(e).__name__
+    return {k: [list(m['mapping']) for m in data[k]] for k in ('reactants', 'products', 'reagents')}
+
+
+def gen_rad_block(rng, total):
+    """a CXSMILES radical part for a text with `total` atoms -> (text of the part, flavour)"""
+    fl = rng.choice(('valid', 'valid', 'valid', 'valid', 'range', 'collision', 'multi', 'badclass', 'junk', 'zeros', 'empty'))
+    k = rng.randint(1, max(1, min(4, total)))
+    idx = sorted(rng.sample(range(total), min(k, total))) if total else []
+    num = lambda x: ('0' * rng.choice((0, 0, 0, 1, 2)) if fl == 'zeros' else '') + str(x)
+    if fl == 'range' or not idx:
+        idx = idx + [total + rng.randint(0, 3)]
+        rng.shuffle(idx)
+    if fl == 'collision':
+        idx = idx + [rng.choice(idx)]
+        rng.shuffle(idx)
+    if fl == 'valid' and rng.random() < 0.3:
+        rng.shuffle(idx)
+    if fl == 'multi' and len(idx) > 1:
+        c = rng.randint(1, len(idx) - 1)
+        return '^%d:%s,^%d:%s' % (rng.randint(1, 7), ','.join(map(num, idx[:c])), rng.randint(1, 7), ','.join(map(num, idx[c:]))), fl
+    if fl == 'badclass':
+        return '^%s:%s' % (rng.choice(('8', '0', '9', '', '11', 'x')), ','.join(map(num, idx))), fl
+    if fl == 'junk':
+        return rng.choice(('^1:%s,', '^1:,%s', '^1%s', '^^1:%s', '^1:%s.5', '^1:%s,,3', 'x^1:%s', '^1:%s^1:0', '^1: %s', '1:%s',
+                           '^1:%sf')) % ','.join(map(num, idx)), fl
+    if fl == 'empty':
+        return rng.choice(('^1:', '^1', '^')), fl
+    return '^%d:%s' % (rng.choice((1, 1, 1, 2, 3, 7)), ','.join(map(num, idx))), fl
+
+
+def gen_rad_text(rng):
+    """reaction text (plain or atom-mapped fragments, any fragment block of gen_read_text) with a radical part"""
+    mapped = rng.random() < 0.4
+    frs = None
+    if mapped:
+        frs = [rng.choice(MAPPED_FRAGS + FRAGS[:6]) for _ in range(12)]
+    text, f1 = gen_read_text(rng, frs)
+    smi, _, cx = text.partition(' ')
+    tbl = piece_table(text) or []
+    cnt = dict(tbl)
+    total = sum(cnt.get(x, 0) for role in smi.split('>') for x in role.split('.') if x)
+    part, f2 = gen_rad_block(rng, total)
+    if rng.random() < 0.12:
+        part, f2 = '', 'noradicals'
+    if cx.startswith('|') and cx.endswith('|') and len(cx) >= 2:
+        inner = cx[1:-1]
+        parts = [x for x in ((part, inner) if rng.random() < 0.7 else (inner, part)) if x]
+        cx = '|' + ','.join(parts) + '|'
+    elif not cx and part:
+        cx = rng.choice(('|%s|', '|%s|', '|%s|', '|%s', '%s|', '|$;$,%s|')) % part
+    elif part and rng.random() < 0.5:
+        cx = cx + part
+    return (smi + ' ' + cx).rstrip(), f1, f2, mapped
+
+
+def oracle_mapping_text(text, remap=False):
+    """What reading promises about atom numbers, on the real code only: inside every role all atoms carry different
+    numbers, reagents share no number with reactants or products, and (remap=False) an atom whose written map number is
+    positive, occurs once in its role and - for a reagent - is not used among reactants / products keeps that number."""
+    from chython import smiles, ReactionContainer
+    from chython.files.daylight.parser import parser
+    from chython.files.daylight.tokenize import smiles_tokenize
+    try:
+        r = smiles(text, remap=remap)
+    except Exception:
+        return None
+    if not isinstance(r, ReactionContainer):
+        return None
+    roles = {'reactants': r.reactants, 'reagents': r.reagents, 'products': r.products}
+    nums = {k: [n for m in v for n in m] for k, v in roles.items()}
+    for k, v in nums.items():
+        if len(v) != len(set(v)):
+            return 'C15/mapping/not-injective', f'smiles({text!r}): atom numbers of the {k} are not pairwise different: {v}'
+    bad = set(nums['reagents']) & (set(nums['reactants']) | set(nums['products']))
+    if bad:
+        return 'C15/mapping/reagent-overlap', f'smiles({text!r}): reagents share the numbers {sorted(bad)} with reactants / products'
+    if remap:
+        return None
+    # written maps, from the text alone (a text without fragment block: molecule k of a role is its k-th piece)
+    toks = text.split()
+    if len(toks) != 1 or toks[0].count('>') != 2:
+        return None
+    written = {}
+    for k, part in zip(('reactants', 'reagents', 'products'), toks[0].split('>')):
+        written[k] = []
+        for x in part.split('.'):
+            if x:
+                try:
+                    written[k].append([a.get('parsed_mapping') or 0 for a in parser(smiles_tokenize(x), False)['atoms']])
+                except Exception:
+                    return None
+    core = {m for k in ('reactants', 'products') for mol in written[k] for m in mol if m}
+    for k in roles:
+        flat = [m for mol in written[k] for m in mol]
+        got = nums[k]
+        if len(flat) != len(got):
+            return None
+        for i, (w, g) in enumerate(zip(flat, got)):
+            if w and flat.count(w) == 1 and not (k == 'reagents' and w in core) and w != g:
+                return ('C15/mapping/changed', f'smiles({text!r}): atom {i} of the {k} is written with map {w} (unique in its role) '
+                        f'but is numbered {g}')
+    return None
+
+
+def oracle_written_text(text):
+    """a text the writer produced reads back to a reaction that is written as the same text (real code only)"""
+    from chython import smiles
+    try:
+        back = smiles(text)
+    except Exception as e:
+        return 'C15/read-write/raises/' + type(e).__name__, f'{text!r} cannot be read back: {type(e).__name__}: {e}'
+    a = role_strings([back.reactants, back.reagents, back.products])
+    try:
+        again = smiles(format(back))
+    except Exception as e:
+        return 'C15/read-write/raises/' + type(e).__name__, f'{format(back)!r} cannot be read back: {type(e).__name__}: {e}'
+    b = role_strings([again.reactants, again.reagents, again.products])
+    if a != b:
+        return 'C15/read-write/roles', f'{text!r} read, written and read again gives {b} instead of {a}'
+    return None
+
+
+def gen_mapped_text(rng):
+    """reaction text of small atom-mapped molecules; `clean`: a consistent complete mapping (must come back unchanged)"""
+    fl = rng.choice(('clean', 'clean', 'partial', 'dups', 'reagent-overlap', 'random', 'random'))
+    def mol(ms):
+        return ''.join('[%s:%d]' % (rng.choice(('CH2', 'NH', 'O', 'S')), m) if m else rng.choice(('C', 'N', 'O')) for m in ms)
+    def cut(ms):
+        out = []
+        while ms:
+            k = rng.randint(1, 3)
+            out.append(ms[:k])
+            ms = ms[k:]
+        return out
+    n = rng.randint(1, 6)
+    base = rng.sample(range(1, 12), n)
+    R, P = list(base), rng.sample(base, n)
+    A = rng.sample(range(12, 20), rng.choice((0, 0, 1, 2)))
+    if fl == 'partial':
+        R = [m if rng.random() < 0.6 else 0 for m in R]
+        P = [m if rng.random() < 0.6 else 0 for m in P]
+        A = [m if rng.random() < 0.5 else 0 for m in A]
+    elif fl == 'dups':
+        for side in (R, P):
+            if len(side) > 1 and rng.random() < 0.7:
+                side[rng.randrange(len(side))] = rng.choice(side)
+    elif fl == 'reagent-overlap':
+        A = A + [rng.choice(base)] + ([rng.choice(base)] if rng.random() < 0.3 else [])
+    elif fl == 'random':
+        R = [rng.randint(0, 5) for _ in range(rng.randint(0, 5))]
+        P = [rng.randint(0, 5) for _ in range(rng.randint(0, 5))]
+        A = [rng.randint(0, 6) for _ in range(rng.randint(0, 3))]
+    text = '>'.join('.'.join(mol(m) for m in cut(role)) for role in (R, A, P))
+    return text, fl
+
+
+def radicals_and_mapping(ctx, rng, cases, s_rad, s_map, programs, written):
+    """streams `readrad` (text -> role strings + is_radical flags of the parsed atoms, observed where
+    postprocess_parsed_reaction is called) and `mapfix` (postprocess_parsed_reaction: direct calls on generated and
+    exhaustively enumerated small records, and the calls made by smiles() on generated texts)"""
+    def add_text(text, meta, **kw):
+        tbl = piece_table(text)
+        if tbl is None:
+            ctx.dist('readrad:unparsable-piece')
+            return
+        real, cap = read_real_hooked(text, **kw)
+        if not kw:
+            req = 'readrad %d %s %d %s' % (len(text), cps(text), len(tbl), ' '.join('%d %s %d' % (len(x), cps(x), n) for x, n in tbl))
+            s_rad.add(norm(req), real, dict(meta, text=text))
+            ctx.dist('readrad:outcome:' + (real.split()[0] if real.startswith(('err', 'mol')) else 'roles'))
+        if 'maps_in' in cap:
+            mi, k = cap['maps_in'], cap['kw']
+            s_map.add(mapfix_request(k.get('remap', False), k.get('ignore', True), mi['reactants'], mi['products'], mi['reagents']),
+                      mapfix_line(cap['maps_out']), dict(meta, text=text, via='smiles'))
+            ctx.dist('mapfix:via-smiles')
+    for text in written:
+        add_text(text, {'flavour': 'written'})
+    n_rad = 1200 if ctx.quick else 15000
+    for i in range(n_rad):
+        text, f1, f2, mapped = gen_rad_text(rng)
+        add_text(text, {'flavour': f'{f1}/{f2}'})
+        ctx.dist('readrad:radicals=' + f2)
+        ctx.dist('readrad:mapped=%d' % mapped)
+        if i < 2:
+            ctx.sample({'stream': 'readrad', 'text': text, 'real': read_real_hooked(text)[0][:200]})
+    n_txt = 500 if ctx.quick else 6000
+    for i in range(n_txt):
+        text, fl = gen_mapped_text(rng)
+        kw = rng.choice(({}, {}, {'remap': True}, {'ignore': False}, {'remap': True, 'ignore': False}))
+        add_text(text, {'flavour': 'mapped/' + fl}, **kw)
+        ctx.dist('mapfix:text=' + fl)
+        res = oracle_mapping_text(text, remap=bool(kw.get('remap'))) if kw.get('ignore', True) else None
+        ctx.count(('relational', 'mapping-text', i))
+        if res:
+            ctx.fail(res[0], res[1], {'kind': 'mapping-text', 'text': text, 'remap': bool(kw.get('remap'))})
+        if fl == 'clean' and i < 2:
+            ctx.sample({'stream': 'mapfix', 'text': text})
+    # direct calls: generated records
+    n_map = 2500 if ctx.quick else 40000
+    for i in range(n_map):
+        fl = rng.choice(('small-range', 'small-range', 'clean', 'gaps', 'zeros', 'wide'))
+        hi = {'small-range': 5, 'clean': 30, 'gaps': 14, 'zeros': 4, 'wide': 60}[fl]
+        roles = []
+        for r in range(3):
+            role = []
+            for _ in range(rng.choice((0, 1, 1, 2, 3))):
+                k = rng.randint(1, 5)
+                if fl == 'clean':
+                    role.append([0] * k)
+                else:
+                    role.append([rng.choice((0, rng.randint(1, hi))) if fl != 'zeros' else rng.choice((0, 0, rng.randint(1, hi)))
+                                 for _ in range(k)])
+            roles.append(role)
+        if fl == 'clean':
+            nums = rng.sample(range(1, hi + 40), sum(len(m) for role in roles for m in role) + 1)
+            if rng.random() < 0.5:          # no gaps: remap=True is the identity too
+                nums = list(range(1, len(nums) + 1))
+                rng.shuffle(nums)
+            own = {0: [], 1: [], 2: []}
+            for r in range(3):
+                for m in roles[r]:
+                    for j in range(len(m)):
+                        m[j] = nums.pop()
+                        own[r].append(m[j])
+            # products re-use the reactant numbers where possible (a complete consistent mapping)
+            pool_ = list(own[0])
+            rng.shuffle(pool_)
+            for m in roles[1]:
+                for j in range(len(m)):
+                    if pool_:
+                        m[j] = pool_.pop()
+        remap, ignore = rng.random() < 0.4, rng.random() < 0.75
+        R, P, A = roles
+        s_map.add(mapfix_request(remap, ignore, R, P, A), mapfix_line(mapfix_real(remap, ignore, R, P, A, rng)),
+                  {'flavour': fl, 'via': 'direct'})
+        ctx.dist('mapfix:' + fl)
+    # direct calls: every record with one molecule of <= 2 atoms per role over a small alphabet (with a gap), all options
+    alphabet = (0, 1, 3) if ctx.quick else (0, 1, 2, 4)
+    mols = [[]] + [[a] for a in alphabet] + [[a, b] for a in alphabet for b in alphabet]
+    n = 0
+    for r in mols:
+        for p in mols:
+            for a in mols:
+                for remap in (False, True):
+                    for ignore in (True, False):
+                        R, P, A = ([r] if r else []), ([p] if p else []), ([a] if a else [])
+                        s_map.add(mapfix_request(remap, ignore, R, P, A), mapfix_line(mapfix_real(remap, ignore, R, P, A)),
+                                  {'flavour': 'exhaustive', 'via': 'direct'}, nontrivial=bool(r or p or a))
+                        n += 1
+    ctx.dist('mapfix:small-exhaustive', n)
+    programs.update(('smiles() radical block', 're.findall(cx_radicals)', 'postprocess_parsed_reaction'))
 
 
 def mol_key(m):
@@ -1314,6 +1733,16 @@ def search(ctx):
     ordered = [first[i] for i in idx if i < len(first)] + first
     # texts on which the reader model and the reader disagreed: is the written role partition restored?
     for name, b in _state.get('disagreements', []):
+        if name in ('mapfix', 'readrad') and b[3].get('text'):
+            res = oracle_mapping_text(b[3]['text'])
+            if res:
+                ctx.fail(res[0], res[1], {'kind': 'mapping-text', 'text': b[3]['text'], 'remap': False})
+                return
+        if name == 'readrad' and b[3].get('flavour') == 'written':
+            res = oracle_written_text(b[3]['text'])
+            if res:
+                ctx.fail(res[0], res[1], {'kind': 'written-text', 'text': b[3]['text']})
+                return
         if name == 'read' and b[3].get('flavour') in ('written', 'writer'):
             res = oracle_read_text(b[3]['text'])
             if res:
@@ -1380,6 +1809,12 @@ def search(ctx):
             if res:
                 ctx.fail(res[0], res[1], {'kind': 'read-partition', 'text': text})
                 return
+        text, _ = gen_mapped_text(rng)
+        rm = rng.random() < 0.3
+        res = oracle_mapping_text(text, remap=rm)
+        if res:
+            ctx.fail(res[0], res[1], {'kind': 'mapping-text', 'text': text, 'remap': rm})
+            return
         if n > len(ordered) + (2000 if ctx.quick else 20000):
             break
     ctx.notes.append(f'search: property oracles evaluated on {n} reactions, no failing input')
@@ -1498,6 +1933,12 @@ def probe(inp):
         if res and res[0] != 'inherited':
             return True, f'{res[0]}: {res[1]}'
         return False, 'CGR signature and centre are invariant under this renumbering'
+    if kind == 'written-text':
+        res = oracle_written_text(inp['text'])
+        return (True, f'{res[0]}: {res[1]}') if res else (False, 'the written text is a fixed point of read / write')
+    if kind == 'mapping-text':
+        res = oracle_mapping_text(inp['text'], remap=bool(inp.get('remap')))
+        return (True, f'{res[0]}: {res[1]}') if res else (False, 'atom numbers are injective per role, reagents apart, unique written maps kept')
     if kind == 'read-partition':
         res = oracle_read_text(inp['text'])
         return (True, f'{res[0]}: {res[1]}') if res else (False, 'the reader returns the partition the text denotes')
